@@ -89,7 +89,9 @@ func (e EUnary) String() string  { return e.Op + e.X.String() }
 func (e EBinary) String() string {
 	return "(" + e.X.String() + " " + e.Op + " " + e.Y.String() + ")"
 }
-func (e ECond) String() string  { return "(" + e.C.String() + " ? " + e.A.String() + " : " + e.B.String() + ")" }
+func (e ECond) String() string {
+	return "(" + e.C.String() + " ? " + e.A.String() + " : " + e.B.String() + ")"
+}
 func (e EField) String() string { return e.X.String() + "." + e.Name }
 func (e EIndex) String() string { return e.X.String() + "[" + e.I.String() + "]" }
 func (e ESlice) String() string {
@@ -270,8 +272,8 @@ func ParseExpr(src string) (e Expr, err error) {
 type parseErr string
 
 func (ps *parser) fail(f string, a ...interface{}) { panic(parseErr(fmt.Sprintf(f, a...))) }
-func (ps *parser) peek() tok                        { return ps.toks[ps.p] }
-func (ps *parser) next() tok                        { t := ps.toks[ps.p]; ps.p++; return t }
+func (ps *parser) peek() tok                       { return ps.toks[ps.p] }
+func (ps *parser) next() tok                       { t := ps.toks[ps.p]; ps.p++; return t }
 func (ps *parser) isOp(s string) bool {
 	t := ps.peek()
 	return t.kind == "op" && t.text == s
